@@ -2448,6 +2448,7 @@ def rule_reuse(prog):
         if alts:
             max_depth = max(max_depth, depth(alts[0], (sb["p"],)))
     window = None
+    counted_tokens = None    # how many non-comment tokens the comment-blind count takes (None: not of the counted shape)
     comment_blind = None     # does the window extend over the comments in front of the tokens that are looked at?
     for b in scope:
         for st in hir.nodes(b["body"], "Struct"):
@@ -2482,6 +2483,32 @@ def rule_reuse(prog):
                             "spl_frontend::tokens::TokenType::Comment" in hir.pat_variants_all(pt)
                             for x in hir.nodes(hb["body"])
                             for pt in ([a_["pat"] for a_ in x["arms"]] if x.get("k") == "Match" else [x["pat"]] if x.get("k") == "LetExpr" else []))
+                        # how many tokens that are no comments does the count take?  `take_while(|t| { let go = seen < K; if !comment
+                        # { seen += 1 }; go })` takes K of them - the test is made *before* this token is counted.  Made after it
+                        # (`seen += 1; seen < K`) the K-th token ends the walk and is not taken: K - 1
+                        for tw in hir.nodes(hb["body"], "MethodCall"):
+                            cl_ = hir.strip(tw["args"][0]) if tw["m"] == "take_while" and tw["args"] else {}
+                            blk_ = hir.strip(cl_.get("body") or {})
+                            if cl_.get("k") != "Closure" or blk_.get("k") != "BlockExpr":
+                                continue
+                            kids_ = list(blk_["b"]["stmts"]) + ([blk_["b"]["expr"]] if blk_["b"].get("expr") else [])
+                            inc_i = cmp_i = None
+                            limit_ = None
+                            ctr_ = None
+                            for i_, k_ in enumerate(kids_):
+                                for y in hir.nodes(k_):
+                                    if y.get("k") == "AssignOp" and y.get("op") in ("+=", "Add") and hir.path_local(hir.strip(y["l"])) and inc_i is None:
+                                        inc_i, ctr_ = i_, hir.path_local(hir.strip(y["l"]))["id"]
+                            for i_, k_ in enumerate(kids_):
+                                for y in hir.nodes(k_):
+                                    if y.get("k") == "Binary" and y["op"] in ("<", "<=") and ctr_ is not None and \
+                                            (hir.path_local(hir.strip(y["l"])) or {}).get("id") == ctr_ and hir.lit_value(hir.strip(y["r"])) is not None:
+                                        try:
+                                            cmp_i, limit_ = i_, int(hir.lit_value(hir.strip(y["r"]))) + (1 if y["op"] == "<=" else 0)
+                                        except (TypeError, ValueError):
+                                            pass
+                            if inc_i is not None and cmp_i is not None and limit_ is not None and cmp_i != inc_i:
+                                counted_tokens = limit_ if cmp_i < inc_i else limit_ - 1
     if max_depth and window is not None:
         out.add("parser::utility::affected", "the affected range reaches as far behind a node as the parsers' look-ahead", window >= max_depth,
                 c.loc(aff["sp"]), "the synchronisation sets inspect up to %d tokens behind a node (`ident :=`), a node counts as affected only "
@@ -2495,6 +2522,11 @@ def rule_reuse(prog):
             "the affected range ends a fixed number of tokens behind the node, comments included, but every token parser skips the comments "
             "in front of its token: with `f(1 // c⏎ a := 2;` the decisive `:=` is the third token behind the argument and deleting it keeps "
             "the old argument", ("window",))
+    if counted_tokens is not None and max_depth:
+        out.add("parser::utility::affected", "the comment-blind count takes as many tokens as the parsers look at", counted_tokens >= max_depth,
+                c.loc(aff["sp"]), "the walk behind a node stops after %d tokens that are no comments, the synchronisation sets inspect %d: with a "
+                "comment among them the last token a parser looked at is outside the affected range (`f(a // c⏎ b := 2;`: replacing `:=` keeps "
+                "the old argument)" % (counted_tokens, max_depth), ("window",))
     # ---- (alt): an alternative that is handed the old node must be able to report `Affected` to the caller; a catch-all recovery
     # alternative behind it in the same alt(..) turns that report into an (empty) error node
     rec_fns = set(rb["p"] for rb, _, _ in recovery_sites(prog))
